@@ -1,0 +1,63 @@
+// Copyright contributors to the openqasm-parser project
+// SPDX-License-Identifier: Apache-2.0
+
+//! Verification hooks, compiled only with the cargo feature `oq3_verif`.
+//!
+//! Thread-local progress counters of the parser: the number of events pushed,
+//! look-ahead steps taken and tokens consumed, and the largest number of events
+//! pushed between two consumed tokens. A grammar loop that is stuck pushes
+//! marker/error events forever without consuming a token; with the feature on
+//! this is turned into an immediate panic instead of unbounded memory growth.
+
+use std::cell::Cell;
+
+/// Upper bound on the number of events pushed without consuming a token.
+pub const MAX_EVENTS_WITHOUT_PROGRESS: u32 = 10_000;
+
+#[derive(Clone, Copy, Debug, Default, PartialEq, Eq)]
+pub struct Stats {
+    pub events: u64,
+    pub steps: u64,
+    pub bumps: u64,
+    pub max_events_between_bumps: u32,
+}
+
+thread_local! {
+    static STATS: Cell<Stats> = const { Cell::new(Stats { events: 0, steps: 0, bumps: 0, max_events_between_bumps: 0 }) };
+}
+
+/// Return the counters accumulated on this thread and reset them.
+pub fn take_stats() -> Stats {
+    STATS.with(|s| s.replace(Stats::default()))
+}
+
+pub(crate) fn on_step() {
+    STATS.with(|s| {
+        let mut st = s.get();
+        st.steps += 1;
+        s.set(st);
+    });
+}
+
+pub(crate) fn on_bump() {
+    STATS.with(|s| {
+        let mut st = s.get();
+        st.bumps += 1;
+        s.set(st);
+    });
+}
+
+pub(crate) fn on_event(events_since_bump: u32) {
+    STATS.with(|s| {
+        let mut st = s.get();
+        st.events += 1;
+        if events_since_bump > st.max_events_between_bumps {
+            st.max_events_between_bumps = events_since_bump;
+        }
+        s.set(st);
+    });
+    assert!(
+        events_since_bump <= MAX_EVENTS_WITHOUT_PROGRESS,
+        "parser made no progress"
+    );
+}
